@@ -48,6 +48,10 @@ pub enum Kind {
     /// an unused default-namespace declaration on a token-valued leaf that is written with a prefix (it binds
     /// nothing: the leaf and everything around it use the prefix); the leaf itself is written with a prefix of its own
     UnusedDefaultNs,
+    /// white space around token-valued text as a peer with CR LF line ends and tab indentation writes it
+    WsTextCrLf,
+    /// white space between children as a peer with CR LF line ends and tab indentation writes it
+    WsBetweenCrLf,
 }
 
 #[derive(Debug, Clone, Copy, PartialEq, Eq, PartialOrd, Ord, Hash)]
@@ -113,11 +117,13 @@ pub fn applicable(root: &Node) -> Vec<Rw> {
         }
         if !n.children.is_empty() {
             out.push(Rw { kind: Kind::WsBetween, pos });
+            out.push(Rw { kind: Kind::WsBetweenCrLf, pos });
             out.push(Rw { kind: Kind::CommentFirst, pos });
             out.push(Rw { kind: Kind::CommentLast, pos });
         }
         if n.children.is_empty() && !n.text.is_empty() && (TOKEN_ELEMENTS.contains(&n.name.as_str()) || term_names.contains(&pos)) {
             out.push(Rw { kind: Kind::WsText, pos });
+            out.push(Rw { kind: Kind::WsTextCrLf, pos });
             out.push(Rw { kind: Kind::UnusedDefaultNs, pos });
             out.push(Rw { kind: Kind::CommentInText, pos });
             out.push(Rw { kind: Kind::CharRef, pos });
@@ -264,20 +270,23 @@ impl Ser<'_> {
             if self.has(Kind::CommentInText, pos) {
                 text.push_str("<!-- c13 -->");
             }
-            if self.has(Kind::WsText, pos) {
+            if self.has(Kind::WsTextCrLf, pos) {
+                self.out.push_str(&format!("\r\n\t\t{text}\r\n\t"));
+            } else if self.has(Kind::WsText, pos) {
                 self.out.push_str(&format!("\n    {text}\n  "));
             } else {
                 self.out.push_str(&text);
             }
         } else {
-            let ws = self.has(Kind::WsBetween, pos);
+            let crlf = self.has(Kind::WsBetweenCrLf, pos);
+            let ws = self.has(Kind::WsBetween, pos) || crlf;
             if self.has(Kind::CommentFirst, pos) {
                 self.out.push_str("<!-- c13 -->");
             }
             let p = prefix.clone();
             for c in &n.children {
                 if ws {
-                    self.out.push_str("\n  ");
+                    self.out.push_str(if crlf { "\r\n\t" } else { "\n  " });
                 }
                 self.node(c, p.as_deref(), &renames);
             }
@@ -285,7 +294,7 @@ impl Ser<'_> {
                 self.out.push_str("<!-- c13 -->");
             }
             if ws {
-                self.out.push('\n');
+                self.out.push_str(if crlf { "\r\n" } else { "\n" });
             }
         }
         self.out.push_str(&format!("</{name}>"));
